@@ -952,9 +952,14 @@ impl<'lexer> Lexer<'lexer> {
   }
 
   /// Returns `true` when the next character on input is a character
-  /// from specified `chars` list.
+  /// from specified `chars` list; white spaces and comments are skipped.
   fn is_next_character(&self, chars: &[char], mut offset: usize) -> bool {
     while let Some(ch) = self.char_at(offset) {
+      if self.is_comment_start(offset) {
+        // a comment separates tokens like a white space does
+        offset = self.comment_end(offset);
+        continue;
+      }
       if chars.contains(&ch) {
         return true;
       } else if !is_whitespace(ch) {
@@ -963,6 +968,23 @@ impl<'lexer> Lexer<'lexer> {
       offset += 1;
     }
     false
+  }
+
+  /// Returns the offset just after the comment that starts at the specified offset.
+  /// A line comment ends before the line feed, an unterminated comment at the end of input.
+  fn comment_end(&self, mut offset: usize) -> usize {
+    let block = self.char_at(offset + 1) == Some('*');
+    offset += 2;
+    while let Some(ch) = self.char_at(offset) {
+      if block && ch == '*' && self.char_at(offset + 1) == Some('/') {
+        return offset + 2;
+      }
+      if !block && ch == '\n' {
+        return offset;
+      }
+      offset += 1;
+    }
+    offset
   }
 }
 
